@@ -92,7 +92,8 @@ J gen_seq(const std::string& prop, uint64_t run_seed, const std::string& tier) {
     std::vector<uint64_t> cuts;
     unsigned style = (unsigned)net.below(5); if (deep_item) style = 2;   // a deep chain is retried as a whole on every arrival: deliver it in one or two pieces
     if (style == 0 && len <= 150) cuts.assign(len, 1);
-    else if (style == 1) { uint64_t m = net.range(2, 17); cuts.assign(len / m + 1, m); }
+    else if (style == 1) { uint64_t m = net.range(2, 17); if (len / m > 400) m = len / 400 + 1;   /* the receiver re-decodes the pending item on every arrival: bound the quadratic work */
+      cuts.assign(len / m + 1, m); }
     else if (style == 2) { if (deep_item && net.chance(1, 2)) cuts.push_back(net.range(1, len)); }
     else { uint64_t left = len; while (left > 0 && cuts.size() < 48) { uint64_t k = net.range(1, std::max<uint64_t>(1, std::min<uint64_t>(left, net.chance(1, 3) ? 3 : 30))); cuts.push_back(k); left -= k; } }
     J jc = J::arr(); for (auto v : cuts) jc.push(v); c.set("cuts", jc);
